@@ -8,7 +8,7 @@ ENTRY_POINTS = ["esl-afetch", "esl-alimanip", "esl-alimap", "esl-alimask", "esl-
                 "esl-ssdraw", "esl-translate", "esl-weight",
                 "easel alistat", "easel downsample", "easel filter", "easel index"]
 
-THEOREMS = ["fasta_read_write", "fasta_rewrap_invariant", "fasta_file_lines",
+THEOREMS = ["fasta_read_write", "fasta_rewrap_invariant", "fasta_file_lines", "fasta_file_read_write",
             "seqstat_nseq", "seqstat_nres", "seqstat_small", "seqstat_large", "seqstat_concat",
             "alirev_involution_dna", "alirev_involution_rna", "alirev_columns", "sfetch_revcomp_involution_partial",
             "sfetch_revcomp_U_not_involutive", "sfetch_subseq", "seqrange_partition",
@@ -550,8 +550,7 @@ def search_case(ctx, rng, tool, idx, corpus, only_valid_inputs=False):
     if tool == "esl-afetch" and "--index" not in forced and files and rng.random() < 0.5:
         pre.append(op_run("esl-afetch", ["--index", files[0]]))
     argv = pick_options(rng, tool, table, files, valid_opts, forced)
-    if only_valid_inputs:
-        argv, pos = avoid_known(rng, tool, argv, pos)
+    # (no region of a known finding has to be avoided at present: the esl-reformat / esl-sfetch argument checks are fixed)
     if valid_opts and abc_used[0] and rng.random() < 0.7:
         flag = {DNA: "--dna", AMINO: "--amino", "ACGU": "--rna"}[abc_used[0]]
         tn = [o["name"] for o in table]
@@ -562,7 +561,7 @@ def search_case(ctx, rng, tool, idx, corpus, only_valid_inputs=False):
     if rng.random() < 0.04 and files:
         pos = ["nonexistent" if p == files[0] else p for p in pos]
     use_stdin = None
-    if files and rng.random() < 0.06 and pos and pos[0] == files[0] and not (only_valid_inputs and tool == "esl-sfetch"):
+    if files and rng.random() < 0.06 and pos and pos[0] == files[0]:
         # read the first input from stdin ('-')
         for o in ops:
             if o.startswith("file name=%s " % files[0]):
@@ -992,7 +991,79 @@ def ref_index(rng, i):
             "ops": [op_file("in.fa", fasta_text(recs, rng.choice([60, 50, 7]))), op_run("easel", ["index", "in.fa"])]}
 
 
-REF_GENERATORS = [("easel index", ref_index), ("easel filter", ref_filter), ("esl-weight", ref_weight), ("esl-afetch", ref_afetch), ("roundtrip", ref_roundtrip), ("esl-alistat", ref_alistat), ("esl-translate", ref_translate), ("esl-sfetch", ref_sfetch), ("esl-seqstat", ref_seqstat), ("esl-alirev", ref_alirev), ("esl-alipid", ref_alipid),
+def _sto_rows(rng, rf=True):
+    abc = rng.choice(["ACGU", DNA, AMINO])
+    rows, _ = gen_msa(rng, abc=abc, nseq=rng.choice([2, 3, 4, 6, 9]), alen=rng.choice([5, 10, 33, 60, 61, rng.randrange(2, 120)]))
+    rows = [("%s%d" % (rng.choice(["s", "seq", "x_"]), k + 1), s) for k, (n, s) in enumerate(rows)]
+    return rows, abc
+
+
+def ref_alimask(rng, i):
+    """esl-alimask -t <a>-<b> keeps exactly columns a..b; esl-alimask -g --gapthresh x keeps exactly the columns whose gap
+    fraction is <= x. The output (Stockholm) is converted to afa by esl-reformat and compared with the recomputed rows."""
+    rows, abc = _sto_rows(rng)
+    alen = len(rows[0][1])
+    text = stockholm_text(rows, rng, rf=rng.random() < 0.5, ss=False)
+    flag = ABCFLAG[abc]
+    if rng.random() < 0.5:
+        a = rng.randrange(1, alen + 1); b = rng.randrange(a, alen + 1)
+        want = [(n, s[a - 1:b]) for n, s in rows]
+        args = ["-t", flag, "in.sto", "%d%s%d" % (a, rng.choice(["-", ".."]), b)]
+        kind = "t"
+    else:
+        nseq = len(rows)
+        k = rng.randrange(0, nseq + 1)
+        x = min(1.0, (k + 0.5) / nseq)
+        rfline = None
+        if rng.random() < 0.5:       # with #=GC RF annotation only the non-gap RF columns are eligible (no --keepins)
+            rfline = "".join("x" if rng.random() < 0.8 else "." for _ in range(alen))
+            if "x" not in rfline: rfline = "x" + rfline[1:]
+        keep = [c for c in range(alen) if sum(1 for n, s in rows if s[c] == "-") / nseq <= x and (rfline is None or rfline[c] == "x")]
+        if not keep:
+            x = 1.0
+            keep = [c for c in range(alen) if rfline is None or rfline[c] == "x"]
+        want = [(n, "".join(s[c] for c in keep)) for n, s in rows]
+        text = stockholm_text(rows, rng, rf=False, ss=False)
+        if rfline is not None:
+            w_ = max(len(n) for n, _ in rows) + 2
+            text = text.replace("//\n", "#=GC RF".ljust(w_ + 8) + rfline + "\n//\n")
+        args = ["-g", "--gapthresh", "%.4f" % x, flag, "in.sto"]
+        kind = "g"
+    return {"name": "ref-alimask-%d-%s" % (i, kind), "ref": True, "nopred_ok": True, "sticky": 1, "roundtrip": want,
+            "ops": [op_file("in.sto", text), op_run("esl-alimask", args), "save name=mid",
+                    op_run("esl-reformat", ["--informat", "stockholm", "afa", "mid"])]}
+
+
+def ref_alimanip(rng, i):
+    """esl-alimanip --seq-k / --seq-r <list>: exactly the listed sequences are kept / removed, in alignment order;
+    --lmin / --lmax <n>: exactly the sequences whose unaligned length is >= / <= n are kept"""
+    rows, abc = _sto_rows(rng)
+    text = stockholm_text(rows, rng, rf=rng.random() < 0.5, ss=False)
+    flag = ABCFLAG[abc]
+    ops = [op_file("in.sto", text)]
+    w = rng.random()
+    if w < 0.5:
+        names = [n for n, _ in rows]
+        sel = [n for n in names if rng.random() < 0.5] or [names[0]]
+        if len(sel) == len(names): sel = sel[:-1]
+        lst = list(sel); rng.shuffle(lst)
+        ops.append(op_file("list", "\n".join(lst) + "\n"))
+        if rng.random() < 0.5:
+            args = ["--seq-k", "list", flag, "in.sto"]; want = [(n, s) for n, s in rows if n in sel]
+        else:
+            args = ["--seq-r", "list", flag, "in.sto"]; want = [(n, s) for n, s in rows if n not in sel]
+    else:
+        lens = sorted(len(s.replace("-", "")) for _, s in rows)
+        cut = rng.choice(lens)
+        if rng.random() < 0.5:
+            args = ["--lmin", str(cut), flag, "in.sto"]; want = [(n, s) for n, s in rows if len(s.replace("-", "")) >= cut]
+        else:
+            args = ["--lmax", str(cut), flag, "in.sto"]; want = [(n, s) for n, s in rows if len(s.replace("-", "")) <= cut]
+    ops += [op_run("esl-alimanip", args), "save name=mid", op_run("esl-reformat", ["--informat", "stockholm", "afa", "mid"])]
+    return {"name": "ref-alimanip-%d" % i, "ref": True, "nopred_ok": True, "sticky": 1, "roundtrip": want, "ops": ops}
+
+
+REF_GENERATORS = [("esl-alimask", ref_alimask), ("esl-alimanip", ref_alimanip), ("easel index", ref_index), ("easel filter", ref_filter), ("esl-weight", ref_weight), ("esl-afetch", ref_afetch), ("roundtrip", ref_roundtrip), ("esl-alistat", ref_alistat), ("esl-translate", ref_translate), ("esl-sfetch", ref_sfetch), ("esl-seqstat", ref_seqstat), ("esl-alirev", ref_alirev), ("esl-alipid", ref_alipid),
                   ("esl-seqrange", ref_seqrange), ("esl-selectn", ref_selectn), ("esl-mask", ref_mask),
                   ("esl-reformat", ref_reformat), ("esl-shuffle", ref_shuffle), ("easel downsample", ref_downsample)]
 
@@ -1057,7 +1128,7 @@ def ref_monitor(ctx, case, out):
                 cur[1] += line.strip()
         want = [[n, s_] for n, s_ in case["roundtrip"]]
         if got != want:
-            return _fail("esl-reformat afa -> format -> afa did not return the original names/residues (%s): want %r got %r"
+            return _fail("tool output, converted to afa by esl-reformat, is not the recomputed alignment (names/residues) (%s): want %r got %r"
                          % (case["name"], want[:3], got[:3]))
     return None
 
